@@ -62,6 +62,18 @@ CLAIMED['C18'] = dict(
     note='Trusts dict/list insertion order, stability of sorted(), and the reasoned table of listings of pydoctor\'s own resource directories.',
     ref='DESIGN.md section 3, C18')
 
+CLAIMED['C19'] = dict(
+    technique='typestate over exception classes on a hand-built statement CFG + pairing / who-may-call rules',
+    text='Static: in Visitor.walkabout every pruning exception class that visit() can raise is received by a handler of the same activation '
+         'from which every path passes depart(); SkipSiblings is re-raised only after depart (R19.1); Visitor.visit delays every pruning '
+         'class past the AFTER/INNER extensions and re-raises it last, visit/depart call the four extension timings in the documented order '
+         'and on every path (R19.2); in the AST builder every visit_K that enters a scope has a depart_K that leaves it, no pruning '
+         'exception can follow a push, push/pop move the stack by one, extensions pair their own push/pop locally and raise no pruning '
+         'exception (R19.3). Decides the control-flow shape for all trees and prunings at once; the skip-flag semantics are not decided.',
+    note='Trusts the hand-built CFG (exception edges are resolved per handler class for the pruning family) and that third-party extensions '
+         'are out of scope.',
+    ref='DESIGN.md section 3, C19')
+
 NOT_APPLICABLE = {
     'C04': 'relation between expandName results and the interpreter import system over all projects: value computations, no clause visible in the shape of the code (DESIGN.md section 5)',
     'C06': 'quantifies over processing schedules; name resolution during the AST walk is order sensitive by design, no structural bound (DESIGN.md section 5); the one structural fact (post-processing after the drain loop) is checked under C05',
